@@ -41,13 +41,38 @@ pub fn minimise(judge: &str, session: &SessionSpec, reference: &[SessionSpec], v
             }
         }};
     }
-    // 1. drop worlds
-    let mut i = 0;
-    while best.worlds.len() > 1 && i < best.worlds.len() && !over(&start) {
-        let mut c = best.clone();
-        c.worlds.remove(i);
-        if !attempt!(c, true) {
-            i += 1;
+    // 1. drop worlds: first a guess (the world named in the violation alone), then ddmin-style chunks
+    //    (halves, quarters, ... single worlds)
+    if best.worlds.len() > 1 {
+        let wid = best_v.at.strip_prefix("world ").and_then(|s| s.split(' ').next()).unwrap_or("").to_string();
+        if let Some(w) = best.worlds.iter().find(|w| w.id == wid) {
+            let c = SessionSpec { worlds: vec![w.clone()], ..best.clone() };
+            let _ = attempt!(c, true);
+        }
+    }
+    let mut chunk = best.worlds.len() / 2;
+    while chunk >= 1 && best.worlds.len() > 1 && !over(&start) {
+        let mut i = 0;
+        let mut progressed = false;
+        while i < best.worlds.len() && best.worlds.len() > 1 && !over(&start) {
+            let end = (i + chunk).min(best.worlds.len());
+            if end - i >= best.worlds.len() {
+                break;
+            }
+            let mut c = best.clone();
+            c.worlds.drain(i..end);
+            if attempt!(c, true) {
+                progressed = true;
+            } else {
+                i = end;
+            }
+        }
+        if chunk == 1 && !progressed {
+            break;
+        }
+        chunk = if chunk == 1 { if progressed { 1 } else { 0 } } else { chunk / 2 };
+        if chunk == 0 {
+            break;
         }
     }
     // 2. drop nodes (keep at least one)
